@@ -147,6 +147,10 @@ var verifOpenFault bool
 var verifCopyReadFault bool
 var verifFS *verifTree
 var verifHandles map[*os.File]int
+
+// verifHandleKeeps: handles opened for writing without O_TRUNC on a file that
+// already had content: what is written lands on top of the old bytes.
+var verifHandleKeeps map[*os.File]bool
 var verifOSCalls []string // every path handed to the operating system
 
 func verifLocalIndex(name string) int {
@@ -276,9 +280,21 @@ func verifStubOpenFile(name string, flag int, perm os.FileMode) (*os.File, error
 		if flag&os.O_CREATE != 0 && flag&os.O_EXCL != 0 {
 			return nil, &os.PathError{Op: "open", Path: name, Err: syscall.EEXIST}
 		}
+		keeps := false
 		if writing && flag&os.O_TRUNC != 0 {
 			verifFS.content[i] = 2
+		} else if writing && flag&os.O_APPEND == 0 {
+			keeps = true
 		}
+		f := new(os.File)
+		verifHandles[f] = i
+		if keeps {
+			if verifHandleKeeps == nil {
+				verifHandleKeeps = map[*os.File]bool{}
+			}
+			verifHandleKeeps[f] = true
+		}
+		return f, nil
 	}
 	f := new(os.File)
 	verifHandles[f] = i
@@ -491,11 +507,11 @@ func verifStubIOCopy(dst io.Writer, src io.Reader) (int64, error) {
 			// a directory): the OS reports the failing path
 			return 0, &os.PathError{Op: "read", Path: verifModelRoot + verifFS.paths[si], Err: syscall.EISDIR}
 		}
-		verifFS.content[di] = verifFS.content[si]
+		verifFS.content[di] = verifOverwrite(df, verifFS.content[di], verifFS.content[si])
 		return verifSize(verifFS.content[si]), nil
 	case *verifBodyReader:
 		if s.failAfter < 0 {
-			verifFS.content[di] = s.content
+			verifFS.content[di] = verifOverwrite(df, verifFS.content[di], s.content)
 			return verifSize(s.content), nil
 		}
 		if s.failAfter > 0 {
@@ -505,6 +521,16 @@ func verifStubIOCopy(dst io.Writer, src io.Reader) (int64, error) {
 	}
 	vrt.Unsupported("io.Copy from an unexpected reader")
 	return 0, nil
+}
+
+// verifOverwrite: the content of a file after writing the bytes of content
+// neu from offset 0 through handle f: without truncation at open a longer
+// old content keeps its tail (some other content), as on a real file system.
+func verifOverwrite(f *os.File, old, neu int) int {
+	if verifHandleKeeps != nil && verifHandleKeeps[f] && verifSize(old) > verifSize(neu) {
+		return 3
+	}
+	return neu
 }
 
 func verifStubServeContent(w http.ResponseWriter, req *http.Request, name string, modtime time.Time, content io.ReadSeeker) {
@@ -531,6 +557,7 @@ func verifMaterialise(t *verifTree) string {
 	if vrt.Symbolic() {
 		verifFS = t.copy()
 		verifHandles = map[*os.File]int{}
+		verifHandleKeeps = nil
 		verifOSCalls = nil
 		verifOpenFault = false
 		verifCopyReadFault = false
